@@ -403,6 +403,9 @@ def probe(sim, mon, snaps):
         begun = {b['obs'].name for b in mon.begin}
         if sum(o.demand for o in tel.observations if o.name in begun and o.status != RunStatus.FINISHED) > tel.total_arrays:
             mon.tag('C08/observations-on-the-telescope-hold-more-arrays-than-exist')
+        # independent of the observations' status as well: an observation that began at b holds its arrays during [b, b + duration)
+        if sum(b['obs'].demand for b in mon.begin if env.now < b['t'] + b['obs'].duration) > tel.total_arrays:
+            mon.tag('C08/observations-within-their-duration-hold-more-arrays-than-exist')
         if len(r['ingest']) > tel.max_ingest:
             mon.tag('C08/ingest-machines-exceed-limit')
         truly_idle = len(cl._tasks['running']) == 0 and len(r['occupied']) == 0 and len(r['ingest']) == 0
